@@ -970,4 +970,519 @@ theorem jitter_fold [ExactDur F] (ms : Nat) (os : List Outcome) :
           simp only [h2, if_false, ExactDur.toDur_diff, Option.getD_some, jmaxSpec, jitters]
           cases (jittersFrom 0 (rtts os)).max? <;> simp
       cases n <;> exact key
+
+/-! ## conservation laws of the direct definitions -/
+
+theorem counts_le (os : List Outcome) :
+    (rtts os).length + os.countP Outcome.isFailed + os.countP (Outcome.hasLoss .forward)
+      + os.countP (Outcome.hasLoss .backward) ≤ os.length := by
+  induction os with
+  | nil => simp [rtts]
+  | cons o os ih =>
+    cases o with
+    | failed p => simp [rtts, List.filterMap_cons, Outcome.rtt, Outcome.isFailed, Outcome.hasLoss, List.countP_cons] at ih ⊢; omega
+    | complete c n => simp [rtts, List.filterMap_cons, Outcome.rtt, Outcome.isFailed, Outcome.hasLoss, List.countP_cons] at ih ⊢; omega
+    | awaited p l =>
+      cases l <;>
+      simp [rtts, List.filterMap_cons, Outcome.rtt, Outcome.isFailed, Outcome.hasLoss, List.countP_cons] at ih ⊢ <;> omega
+
+theorem hosts_length (os : List Outcome) : (hosts os).length = (rtts os).length := by
+  induction os with
+  | nil => rfl
+  | cons o os ih => cases o <;> simp [hosts, rtts, List.filterMap_cons, Outcome.host, Outcome.rtt] at ih ⊢ <;> omega
+
+theorem bumpAddr_sum (l : List (Nat × Nat)) (a : Nat) :
+    ((bumpAddr l a).map (·.2)).sum = (l.map (·.2)).sum + 1 := by
+  induction l with
+  | nil => simp [bumpAddr]
+  | cons x l ih =>
+    obtain ⟨k, n⟩ := x
+    simp only [bumpAddr]
+    split
+    · simp; omega
+    · simp [ih]; omega
+
+theorem addrCounts_sum (hs : List Nat) : ((addrCounts hs).map (·.2)).sum = hs.length := by
+  induction hs using snoc_induction with
+  | nil => simp [addrCounts, firstSeen]
+  | snoc hs a ih => rw [addrCounts_snoc, bumpAddr_sum, ih]; simp
+
+theorem sum_bounds (l : List Nat) (b w : Nat) (hb : ∀ x ∈ l, b ≤ x) (hw : ∀ x ∈ l, x ≤ w) :
+    b * l.length ≤ l.sum ∧ l.sum ≤ w * l.length := by
+  induction l with
+  | nil => simp
+  | cons x l ih =>
+    have := ih (fun y hy => hb y (by simp [hy])) (fun y hy => hw y (by simp [hy]))
+    have h1 := hb x (by simp)
+    have h2 := hw x (by simp)
+    simp only [List.length_cons, List.sum_cons, Nat.mul_succ]
+    omega
+
+theorem best_worst (l : List Nat) (b w : Nat) (hb : l.min? = some b) (hw : l.max? = some w) :
+    b ≤ w ∧ b * l.length ≤ l.sum ∧ l.sum ≤ w * l.length := by
+  rw [List.min?_eq_some_iff] at hb
+  rw [List.max?_eq_some_iff] at hw
+  exact ⟨hw.2 b hb.1, sum_bounds l b w hb.2 hw.2⟩
+
+/-! ## the flow-level invariants in closed form -/
+
+theorem foldl_lowStep_pos (ts : List Nat) (hts : ∀ t ∈ ts, 1 ≤ t) : ∀ l, 1 ≤ l →
+    1 ≤ ts.foldl lowStep l ∧ (ts.foldl lowStep l = l ∨ ts.foldl lowStep l ∈ ts) ∧
+    ts.foldl lowStep l ≤ l ∧ ∀ b ∈ ts, ts.foldl lowStep l ≤ b := by
+  induction ts with
+  | nil => intro l hl; simp [hl]
+  | cons t ts ih =>
+    intro l hl
+    have ht := hts t (by simp)
+    have hstep : lowStep l t = min l t := by simp [lowStep]; omega
+    obtain ⟨a, b, c, d⟩ := ih (fun x hx => hts x (by simp [hx])) (min l t) (by omega)
+    simp only [List.foldl_cons, hstep]
+    refine ⟨a, ?_, by omega, ?_⟩
+    · rcases b with b | b
+      · rcases Nat.le_total l t with h | h
+        · left; rw [b]; omega
+        · right; rw [b]; simp; left; omega
+      · right; simp [b]
+    · intro x hx
+      rcases List.mem_cons.1 hx with rfl | hx
+      · omega
+      · exact d x hx
+
+theorem foldl_lowStep_zero (ts : List Nat) (hts : ∀ t ∈ ts, 1 ≤ t) :
+    ts.foldl lowStep 0 = ts.min?.getD 0 := by
+  cases ts with
+  | nil => rfl
+  | cons t ts =>
+    have ht := hts t (by simp)
+    obtain ⟨a, b, c, d⟩ := foldl_lowStep_pos ts (fun x hx => hts x (by simp [hx])) t ht
+    have : (t :: ts).min? = some (ts.foldl lowStep t) := by
+      rw [List.min?_eq_some_iff]
+      refine ⟨?_, ?_⟩
+      · rcases b with b | b
+        · rw [b]; simp
+        · simp [b]
+      · intro x hx
+        rcases List.mem_cons.1 hx with rfl | hx
+        · exact c
+        · exact d x hx
+    simp [List.foldl_cons, lowStep, this]
+
+theorem foldl_max_zero (xs : List Nat) : xs.foldl max 0 = xs.max?.getD 0 := by
+  cases xs with
+  | nil => rfl
+  | cons x xs => rw [List.max?_cons', List.foldl_cons, Nat.zero_max]; rfl
+
+theorem foldl_max_ge (xs : List Nat) : ∀ a, a ≤ xs.foldl max a ∧ ∀ x ∈ xs, x ≤ xs.foldl max a := by
+  induction xs with
+  | nil => intro a; simp
+  | cons y xs ih =>
+    intro a
+    obtain ⟨h1, h2⟩ := ih (max a y)
+    refine ⟨by simp only [List.foldl_cons]; omega, ?_⟩
+    intro x hx
+    rcases List.mem_cons.1 hx with rfl | hx
+    · simp only [List.foldl_cons]; omega
+    · exact h2 x hx
+
+theorem probed_pos (hist : List Round) (hwf : ∀ r ∈ hist, RoundWF r) :
+    ∀ t ∈ probedTtls hist, 1 ≤ t ∧ t ≤ 254 := by
+  intro t ht
+  obtain ⟨r, hr, htr⟩ := List.mem_flatMap.1 ht
+  exact (hwf r hr).1 t htr
+
+theorem new_hops (ms : Nat) (i : Nat) (hi : i < 254) :
+    (FlowState.new (F := F) ms).hops[i]? = some Hop.default := by
+  have h254 : MAX_TTL = 254 := rfl
+  show (List.replicate MAX_TTL Hop.default)[i]? = _
+  rw [List.getElem?_replicate, h254]; simp [hi]
+
+theorem new_len (ms : Nat) : (FlowState.new (F := F) ms).hops.length = 254 := by
+  have h254 : MAX_TTL = 254 := rfl
+  show (List.replicate MAX_TTL Hop.default).length = _
+  rw [List.length_replicate, h254]
+
+/-- a whole history applied to a fresh flow state, in closed form -/
+theorem run_new (ms : Nat) (hist : List Round) (hwf : ∀ r ∈ hist, RoundWF r) :
+    ∃ fs, FlowState.run (FlowState.new (F := F) ms) hist = .ok fs ∧ fs.hops.length = 254 ∧
+      fs.maxSamples = ms ∧ fs.roundCount = hist.length ∧
+      fs.highestTtl = highestTtl hist ∧ fs.highestTtlForRound = latestTtl hist ∧
+      fs.lowestTtl = lowestTtl hist ∧
+      ∀ t, 1 ≤ t → t ≤ 254 →
+        fs.hops[t - 1]? = some ((outcomes t hist).foldl (hopStep ms) Hop.default) := by
+  obtain ⟨fs, h1, h2, h3, h4, h5, h6, h7, h8, h9⟩ := run_ok (F := F) hist hwf (FlowState.new ms) (new_len ms)
+  refine ⟨fs, h1, h2, h3, by simpa [FlowState.new] using h4, ?_, ?_, ?_, ?_⟩
+  · rw [h5]; simp only [FlowState.new]; rw [foldl_max_zero]; rfl
+  · rw [h6]; unfold latestTtl; cases hist.getLast? <;> simp [FlowState.new]
+  · rw [h7]; simp only [FlowState.new]
+    rw [foldl_lowStep_zero _ (fun t ht => (probed_pos hist hwf t ht).1)]; rfl
+  · intro t ht1 ht2
+    rw [h9, new_hops ms (t - 1) (by omega)]
+    have : t - 1 + 1 = t := by omega
+    simp [this, FlowState.new]
+
+/-! ## the hop window (C10) -/
+
+theorem tagSlots_probe_ttl (rest : List Slot) : ∀ pre, ∀ x ∈ tagSlots pre rest, x.2.probe.ttl = x.1 := by
+  induction rest with
+  | nil => intro pre x hx; simp [tagSlots] at hx
+  | cons s post ih =>
+    intro pre x hx
+    simp only [tagSlots, List.mem_append] at hx
+    rcases hx with hx | hx
+    · cases s <;> simp [tagOf] at hx <;> subst hx <;> rfl
+    · exact ih _ x hx
+
+theorem outcomes_ttl (t : Nat) (hist : List Round) : ∀ o ∈ outcomes t hist, o.probe.ttl = t := by
+  intro o ho
+  obtain ⟨r, _, hor⟩ := List.mem_flatMap.1 ho
+  simp only [roundOutcomes, forTtl, List.mem_filterMap] at hor
+  obtain ⟨x, hx, hxo⟩ := hor
+  have := tagSlots_probe_ttl r.probes [] x hx
+  split at hxo
+  · simp at hxo; subst hxo; omega
+  · simp at hxo
+
+theorem reagg_ttl (ms t : Nat) (os : List Outcome) (h : ∀ o ∈ os, o.probe.ttl = t) (hne : os ≠ []) :
+    (reagg ms os).ttl = t := by
+  simp only [reagg]
+  cases hl : os.getLast? with
+  | none => simp at hl; exact absurd hl hne
+  | some o => simp; exact h o (List.mem_of_getLast? hl)
+
+theorem lowest_le_highest (hist : List Round) (hwf : ∀ r ∈ hist, RoundWF r)
+    (h2 : highestTtl hist ≠ 0) : lowestTtl hist ≠ 0 ∧ lowestTtl hist ≤ highestTtl hist ∧ highestTtl hist ≤ 254 := by
+  unfold highestTtl at h2 ⊢
+  cases hm : (hist.map (·.largestTtl)).max? with
+  | none => simp [hm] at h2
+  | some L =>
+    simp only [hm, Option.getD_some] at h2 ⊢
+    have := (List.max?_eq_some_iff.1 hm).1
+    obtain ⟨r, hr, hrl⟩ := List.mem_map.1 this
+    obtain ⟨hb, _, hl⟩ := hwf r hr
+    rcases hl with hl | ⟨hf, hl⟩
+    · omega
+    · unfold firstTtlLe at hf
+      cases hh : (ttls r.probes).head? with
+      | none => simp [hh] at hf
+      | some f =>
+        simp only [hh] at hf
+        have hfm : f ∈ probedTtls hist :=
+          List.mem_flatMap.2 ⟨r, hr, List.mem_of_head? hh⟩
+        unfold lowestTtl
+        cases hmin : (probedTtls hist).min? with
+        | none => rw [List.min?_eq_none_iff] at hmin; simp [hmin] at hfm
+        | some m =>
+          have hm2 := List.min?_eq_some_iff.1 hmin
+          have := (probed_pos hist hwf m hm2.1).1
+          have := hm2.2 f hfm
+          simp; omega
+
+theorem latest_le (hist : List Round) (hwf : ∀ r ∈ hist, RoundWF r) : latestTtl hist ≤ 254 := by
+  unfold latestTtl
+  cases hl : hist.getLast? with
+  | none => simp
+  | some r =>
+    have := (hwf r (List.mem_of_getLast? hl)).2.2
+    simp; omega
+
+/-- C10: on every well-formed history the hop table is the window `lowest … highest`, and neither
+`hops()` nor `target_hop()` panics -/
+theorem window_ok (ms : Nat) (hist : List Round) (hwf : ∀ r ∈ hist, RoundWF r) :
+    ∃ fs hs tgt, FlowState.run (FlowState.new (F := F) ms) hist = .ok fs ∧ fs.hopsR = .ok hs ∧
+      fs.targetHopR = .ok tgt ∧
+      hs.length = (windowTtls hist).length ∧
+      (∀ (k t : Nat), (windowTtls hist)[k]? = some t → 1 ≤ t ∧ t ≤ 254 ∧
+        hs[k]? = some ((outcomes t hist).foldl (hopStep ms) Hop.default)) ∧
+      tgt = (outcomes (if latestTtl hist = 0 then 1 else latestTtl hist) hist).foldl (hopStep ms) Hop.default ∧
+      fs.highestTtlForRound = latestTtl hist := by
+  obtain ⟨fs, h1, h2, h3, h4, h5, h6, h7, h8⟩ := run_new (F := F) ms hist hwf
+  have hlat := latest_le hist hwf
+  -- target hop
+  have htgt : fs.targetHopR = .ok ((outcomes (if latestTtl hist = 0 then 1 else latestTtl hist) hist).foldl (hopStep ms) Hop.default) := by
+    unfold FlowState.targetHopR idx
+    rw [h6]
+    by_cases hz : latestTtl hist = 0
+    · simp only [hz, Nat.lt_irrefl, if_false, if_true, gt_iff_lt]
+      have := h8 1 (by omega) (by omega)
+      simp at this; simp [this]
+    · have hpos : latestTtl hist > 0 := by omega
+      simp only [hpos, if_true, hz, if_false]
+      rw [h8 _ (by omega) hlat]
+  by_cases hz : lowestTtl hist = 0 ∨ highestTtl hist = 0
+  · refine ⟨fs, [], _, h1, by simp [FlowState.hopsR, h5, h7, hz], htgt, by simp [windowTtls, hz], ?_, rfl, h6⟩
+    intro k t hk; simp [windowTtls, hz] at hk
+  · have hlo : lowestTtl hist ≠ 0 := fun h => hz (.inl h)
+    have hhi : highestTtl hist ≠ 0 := fun h => hz (.inr h)
+    obtain ⟨_, hle, h254⟩ := lowest_le_highest hist hwf hhi
+    refine ⟨fs, (fs.hops.take (highestTtl hist)).drop (lowestTtl hist - 1), _, h1, ?_, htgt, ?_, ?_, rfl, h6⟩
+    · have : lowestTtl hist - 1 ≤ highestTtl hist ∧ highestTtl hist ≤ fs.hops.length := by omega
+      simp [FlowState.hopsR, h5, h7, hz, this]
+    · simp [windowTtls, hz, h2]; omega
+    · intro k t hk
+      simp only [windowTtls, hz, if_false] at hk
+      obtain ⟨hlt, hk⟩ := List.getElem?_eq_some_iff.1 hk
+      rw [List.getElem_range'] at hk
+      simp only [List.length_range'] at hlt
+      subst hk
+      refine ⟨by omega, by omega, ?_⟩
+      rw [List.getElem?_drop, List.getElem?_take]
+      have : lowestTtl hist - 1 + k < highestTtl hist := by omega
+      simp only [this, if_true]
+      have := h8 (lowestTtl hist + 1 * k) (by omega) (by omega)
+      rw [← this]; congr 1; omega
+
+/-! ## the whole state: flows, attribution (C15) -/
+
+/-- the (panic free) effect of a well-formed round on a flow's state -/
+def FlowState.step (fs : FlowState F) (r : Round) : FlowState F :=
+  (tagSlots [] r.probes).foldl FlowState.applyTag (fs.begin r)
+
+theorem step_len (fs : FlowState F) (r : Round) : (fs.step r).hops.length = fs.hops.length := by
+  have := (foldTags_fields (F := F) (tagSlots [] r.probes) (fs.begin r)).2.2.2.2.1
+  simpa [FlowState.step, FlowState.begin] using this
+
+theorem step_maxSamples (fs : FlowState F) (r : Round) : (fs.step r).maxSamples = fs.maxSamples := by
+  have := (foldTags_fields (F := F) (tagSlots [] r.probes) (fs.begin r)).1
+  simpa [FlowState.step, FlowState.begin] using this
+
+theorem step_roundCount (fs : FlowState F) (r : Round) : (fs.step r).roundCount = fs.roundCount + 1 := by
+  have := (foldTags_fields (F := F) (tagSlots [] r.probes) (fs.begin r)).2.1
+  simpa [FlowState.step, FlowState.begin] using this
+
+theorem applyRound_step (fs : FlowState F) (r : Round) (hlen : fs.hops.length = 254) (hwf : RoundWF r) :
+    fs.applyRound r = .ok (fs.step r) := applyRound_ok fs r hlen hwf
+
+theorem run_steps (hist : List Round) (hwf : ∀ r ∈ hist, RoundWF r) : ∀ (fs : FlowState F),
+    fs.hops.length = 254 → FlowState.run fs hist = .ok (hist.foldl FlowState.step fs) := by
+  induction hist with
+  | nil => intro fs _; rfl
+  | cons r hist ih =>
+    intro fs hlen
+    simp only [FlowState.run, applyRound_step fs r hlen (hwf r (by simp)), List.foldl_cons]
+    exact ih (fun x hx => hwf x (by simp [hx])) _ (by rw [step_len]; exact hlen)
+
+theorem lookupFlow_setFlow (l : List (Nat × FlowState F)) (id id' : Nat) (v : FlowState F) :
+    lookupFlow (setFlow l id v) id' = if id' = id then some v else lookupFlow l id' := by
+  induction l with
+  | nil =>
+    simp only [setFlow, lookupFlow]
+    by_cases h : id = id' <;> simp [h, eq_comm]
+  | cons x l ih =>
+    obtain ⟨k, w⟩ := x
+    simp only [setFlow]
+    by_cases hk : k = id
+    · subst hk
+      simp only [if_true, lookupFlow]
+      by_cases h : k = id' <;> simp [h, eq_comm]
+      intro h'; exact absurd h'.symm h
+    · simp only [hk, if_false, lookupFlow, ih]
+      by_cases h : k = id'
+      · subst h; simp [hk]
+      · simp [h]
+
+/-- the state of flow `id`, or a fresh one (`entry(flow_id).or_insert_with(..)`) -/
+def flowOr (st : State F) (id : Nat) : FlowState F :=
+  (lookupFlow st.flows id).getD (FlowState.new st.cfg.maxSamples)
+
+structure StateInv (st : State F) : Prop where
+  reg : RegInv st.registry
+  bound : st.registry.flows.length ≤ st.cfg.maxFlows
+  flows : ∀ id fs, lookupFlow st.flows id = some fs → fs.hops.length = 254 ∧ fs.maxSamples = st.cfg.maxSamples
+
+theorem flowOr_ok (st : State F) (hinv : StateInv st) (id : Nat) :
+    (flowOr st id).hops.length = 254 ∧ (flowOr st id).maxSamples = st.cfg.maxSamples := by
+  unfold flowOr
+  cases h : lookupFlow st.flows id with
+  | none => exact ⟨new_len _, rfl⟩
+  | some fs => exact hinv.flows id fs h
+
+theorem updateTraceFlow_ok (st : State F) (hinv : StateInv st) (id : Nat) (r : Round) (hwf : RoundWF r) :
+    st.updateTraceFlow id r = .ok { st with flows := setFlow st.flows id ((flowOr st id).step r) } := by
+  have := applyRound_step (flowOr st id) r (flowOr_ok st hinv id).1 hwf
+  unfold State.updateTraceFlow
+  unfold flowOr at this
+  cases h : lookupFlow st.flows id with
+  | none => simp only [h, Option.getD_none] at this; simp [this, flowOr, h]
+  | some fs => simp only [h, Option.getD_some] at this; simp [this, flowOr, h]
+
+theorem new_inv (cfg : Cfg) : StateInv (State.new (F := F) cfg) := by
+  refine ⟨RegInv_new, by simp [State.new, Registry.new], ?_⟩
+  intro id fs h
+  simp only [State.new, lookupFlow] at h
+  split at h
+  · simp at h; subst h; exact ⟨new_len _, rfl⟩
+  · simp at h
+
+/-- one `update_from_round` on a well-formed round -/
+theorem step_ok (st : State F) (r : Round) (hinv : StateInv st) (hwf : RoundWF r) :
+    ∃ st', st.updateFromRound r = .ok st' ∧ StateInv st' ∧ st'.cfg = st.cfg ∧
+      st'.registry = (regStep st.cfg.maxFlows st.registry (roundFlow r)).1 ∧
+      st'.roundFlowId = ((regStep st.cfg.maxFlows st.registry (roundFlow r)).2).getD st.roundFlowId ∧
+      ∀ id, lookupFlow st'.flows id =
+        if id = 0 ∨ (regStep st.cfg.maxFlows st.registry (roundFlow r)).2 = some id
+        then some ((flowOr st id).step r) else lookupFlow st.flows id := by
+  have hspec := regStep_spec st.cfg.maxFlows st.registry (roundFlow r) hinv.reg hinv.bound
+  generalize hout : regStep st.cfg.maxFlows st.registry (roundFlow r) = out at hspec
+  obtain ⟨s1, s2, s3, s4, s5, _, _⟩ := hspec
+  -- the default flow
+  have h0 := updateTraceFlow_ok st hinv defaultFlowId r hwf
+  let st1 : State F := { st with flows := setFlow st.flows defaultFlowId ((flowOr st defaultFlowId).step r) }
+  have hinv1 : ∀ (reg : Registry) (rf : Nat), RegInv reg → reg.flows.length ≤ st.cfg.maxFlows →
+      StateInv ({ st1 with registry := reg, roundFlowId := rf } : State F) := by
+    intro reg rf hr hb
+    refine ⟨hr, hb, ?_⟩
+    intro id fs h
+    simp only [st1, lookupFlow_setFlow] at h
+    split at h
+    · simp at h; subst h
+      exact ⟨by rw [step_len]; exact (flowOr_ok st hinv _).1, by rw [step_maxSamples]; exact (flowOr_ok st hinv _).2⟩
+    · exact hinv.flows id fs h
+  have hunf : st.updateFromRound r =
+      (match out.2 with
+       | some flowId => ({ st1 with registry := out.1, roundFlowId := flowId } : State F).updateTraceFlow flowId r
+       | none => .ok { st1 with registry := out.1 }) := by
+    unfold State.updateFromRound
+    simp only [h0, R.bind_ok, bind, R.bind]
+    rw [← hout]
+    unfold regStep
+    by_cases hlt : st.registry.flows.length < st.cfg.maxFlows
+    · simp only [hlt, if_true]
+      cases hreg : st.registry.register (roundFlow r) with
+      | mk reg id => rfl
+    · simp only [hlt, if_false]
+      cases hl : st.registry.lookup (roundFlow r) with
+      | mk reg o => cases o <;> rfl
+  cases ho : out.2 with
+  | none =>
+    refine ⟨{ st1 with registry := out.1 }, by rw [hunf, ho], hinv1 out.1 st.roundFlowId s1 s2, rfl, rfl, by simp [st1, ho], ?_⟩
+    intro id
+    simp only [st1, lookupFlow_setFlow, defaultFlowId]
+    by_cases h : id = 0 <;> simp [h]
+  | some fid =>
+    have hfid : fid ≠ 0 := by have := (s5 fid ho).1; omega
+    let st2 : State F := { st1 with registry := out.1, roundFlowId := fid }
+    have hi2 : StateInv st2 := hinv1 out.1 fid s1 s2
+    have h2 := updateTraceFlow_ok st2 hi2 fid r hwf
+    have hfo : flowOr st2 fid = flowOr st fid := by
+      simp [flowOr, st2, st1, lookupFlow_setFlow, hfid, defaultFlowId]
+    refine ⟨{ st2 with flows := setFlow st2.flows fid ((flowOr st2 fid).step r) }, by rw [hunf, ho]; exact h2, ?_, rfl, rfl, by simp [ho, st2], ?_⟩
+    · refine ⟨s1, s2, ?_⟩
+      intro id fs h
+      simp only [lookupFlow_setFlow] at h
+      split at h
+      · simp at h; subst h
+        exact ⟨by rw [step_len]; exact (flowOr_ok st2 hi2 _).1, by rw [step_maxSamples]; exact (flowOr_ok st2 hi2 _).2⟩
+      · exact hi2.flows id fs h
+    · intro id
+      simp only [lookupFlow_setFlow]
+      rw [hfo]
+      simp only [st2, st1, defaultFlowId, lookupFlow_setFlow]
+      by_cases h : id = fid
+      · subst h; simp
+      · by_cases h0 : id = 0
+        · subst h0; simp [h, Ne.symm hfid]
+        · simp [h, h0, Ne.symm h]
+
+/-- the flow id each round of a history is attributed to (`none`: registry full and no stored flow
+is compatible), computed from the registry alone -/
+def attributions (maxFlows : Nat) : Registry → List Round → List (Option Nat)
+  | _, [] => []
+  | reg, r :: rs =>
+    (regStep maxFlows reg (roundFlow r)).2 :: attributions maxFlows (regStep maxFlows reg (roundFlow r)).1 rs
+
+/-- the registry after a history -/
+def regRun (maxFlows : Nat) : Registry → List Round → Registry
+  | reg, [] => reg
+  | reg, r :: rs => regRun maxFlows (regStep maxFlows reg (roundFlow r)).1 rs
+
+/-- the rounds that flow `id` aggregates: all of them for the default flow, otherwise exactly those
+attributed to it -/
+def roundsFor (id : Nat) : List Round → List (Option Nat) → List Round
+  | r :: rs, a :: as => if id = 0 ∨ a = some id then r :: roundsFor id rs as else roundsFor id rs as
+  | _, _ => []
+
+theorem attributions_length (mf : Nat) (hist : List Round) : ∀ reg, (attributions mf reg hist).length = hist.length := by
+  induction hist with
+  | nil => intro _; rfl
+  | cons r rs ih => intro reg; simp [attributions, ih]
+
+theorem roundsFor_zero (hist : List Round) : ∀ as, as.length = hist.length → roundsFor 0 hist as = hist := by
+  induction hist with
+  | nil => intro as _; cases as <;> rfl
+  | cons r rs ih =>
+    intro as h
+    cases as with
+    | nil => simp at h
+    | cons a as => simp [roundsFor, ih as (by simpa using h)]
+
+/-- C15, bookkeeping: after any well-formed history every flow state is the fold of exactly the
+rounds of that flow, the registry is the registry fold, nothing panics -/
+theorem state_run (hist : List Round) (hwf : ∀ r ∈ hist, RoundWF r) : ∀ (st : State F), StateInv st →
+    ∃ st', State.run st hist = .ok st' ∧ StateInv st' ∧ st'.cfg = st.cfg ∧
+      st'.registry = regRun st.cfg.maxFlows st.registry hist ∧
+      st'.roundFlowId =
+        (((attributions st.cfg.maxFlows st.registry hist).filterMap id).getLast?).getD st.roundFlowId ∧
+      ∀ fid, lookupFlow st'.flows fid =
+        if roundsFor fid hist (attributions st.cfg.maxFlows st.registry hist) = [] then lookupFlow st.flows fid
+        else some ((roundsFor fid hist (attributions st.cfg.maxFlows st.registry hist)).foldl
+                    FlowState.step (flowOr st fid)) := by
+  induction hist with
+  | nil => intro st hinv; exact ⟨st, rfl, hinv, rfl, rfl, rfl, fun fid => by simp [roundsFor]⟩
+  | cons r rest ih =>
+    intro st hinv
+    obtain ⟨st1, a1, a2, a3, a4, a5, a6⟩ := step_ok st r hinv (hwf r (by simp))
+    obtain ⟨st', b1, b2, b3, b4, b5, b6⟩ := ih (fun x hx => hwf x (by simp [hx])) st1 a2
+    refine ⟨st', by simp [State.run, a1, b1], b2, by rw [b3, a3], ?_, ?_, ?_⟩
+    · rw [b4, a3, a4]; rfl
+    · rw [b5, a3, a4, a5]
+      simp only [attributions, List.filterMap_cons]
+      cases (regStep st.cfg.maxFlows st.registry (roundFlow r)).2 with
+      | none => simp
+      | some x =>
+        simp only [id, Option.getD_some, List.getLast?_cons]
+    · intro fid
+      rw [b6, a3, a4]
+      simp only [attributions, roundsFor]
+      have hfo : flowOr st1 fid = (lookupFlow st1.flows fid).getD (FlowState.new st.cfg.maxSamples) := by
+        simp [flowOr, a3]
+      by_cases hc : fid = 0 ∨ (regStep st.cfg.maxFlows st.registry (roundFlow r)).2 = some fid
+      · have := a6 fid
+        simp only [hc, if_true] at this
+        simp only [hc, if_true, hfo, this, Option.getD_some, List.foldl_cons]
+        split <;> simp_all
+      · have := a6 fid
+        simp only [hc, if_false] at this
+        simp only [hc, if_false, hfo, this]
+        rfl
+/-! ## more about histories -/
+
+theorem State.run_append (h1 h2 : List Round) : ∀ (st : State F),
+    State.run st (h1 ++ h2) = (State.run st h1 >>= fun st1 => State.run st1 h2) := by
+  induction h1 with
+  | nil => intro st; rfl
+  | cons r rs ih =>
+    intro st
+    simp only [List.cons_append, State.run]
+    cases st.updateFromRound r with
+    | ok st1 => simp [ih st1]
+    | err e => rfl
+    | panic => rfl
+
+theorem regRun_spec (mf : Nat) (hist : List Round) : ∀ reg, RegInv reg → reg.flows.length ≤ mf →
+    RegInv (regRun mf reg hist) ∧ (regRun mf reg hist).flows.length ≤ mf ∧
+    Registry.le reg (regRun mf reg hist) ∧ reg.flows.length ≤ (regRun mf reg hist).flows.length ∧
+    ∀ a ∈ attributions mf reg hist, ∀ id, a = some id → 1 ≤ id ∧ id ≤ (regRun mf reg hist).flows.length := by
+  induction hist with
+  | nil => intro reg hi hb; exact ⟨hi, hb, Registry.le_refl _, Nat.le_refl _, by simp [attributions]⟩
+  | cons r rs ih =>
+    intro reg hi hb
+    obtain ⟨s1, s2, s3, s4, s5, _, _⟩ := regStep_spec mf reg (roundFlow r) hi hb
+    obtain ⟨t1, t2, t3, t4, t5⟩ := ih _ s1 s2
+    refine ⟨t1, t2, Registry.le_trans s3 t3, Nat.le_trans s4 t4, ?_⟩
+    intro a ha id hid
+    simp only [attributions, List.mem_cons] at ha
+    rcases ha with rfl | ha
+    · have := s5 id hid
+      exact ⟨this.1, Nat.le_trans this.2.1 t4⟩
+    · exact t5 a ha id hid
 end TV.Agg
